@@ -35,7 +35,9 @@ class CoFS(LocalFileSystem):
     def _key(self, path):
         if self.base is None:
             return None
-        path = os.fspath(path)
+        path = os.path.normpath(os.fspath(path))      # (the caller may have written the path with a trailing separator)
+        if os.path.basename(path).endswith(".tmp") and os.path.basename(path).startswith("."):
+            return None   # the link-type probe's scratch file (with a trailing separator it lands inside the directory)
         if path == self.base:
             return "."
         if path.startswith(self.base + os.sep):
@@ -140,12 +142,13 @@ def run_case(case):
                     op = {**op, "relink": False}
                 before = w.observe_ws()
                 wsj, cj, _o = snap()
+                sp = op.get("sp") or ("plain", "slash")[(case["id"] + i) % 2]
                 events.append({"act": {"op": "Begin", "t": op["t"], "force": op["force"], "relink": op["relink"],
-                                       "prompt": op["prompt"], "state": bool(case["state"])}, "ws": wsj, "cache": cj, "flags": {}})
+                                       "prompt": op["prompt"], "state": bool(case["state"]), "sp": sp}, "ws": wsj, "cache": cj, "flags": {}})
                 # the Begin event is logged before the call: its observable effect (dropping corrupt objects) is
                 # seen with the next event; patch it after the call when nothing else was logged
                 idx = len(events) - 1
-                r = w.checkout(op["t"], force=op["force"], relink=op["relink"], prompt=op["prompt"])
+                r = w.checkout(op["t"], force=op["force"], relink=op["relink"], prompt=op["prompt"], sp=sp)
                 wsj, cj, after = snap()
                 if len(events) - 1 > idx:
                     events[idx]["cache"] = events[idx + 1]["cache"]
